@@ -221,6 +221,8 @@ def rand_spec(rng, **force):
         if k == "local":
             L["lsc"] = {"kind": "DontStop"}
             L["maxiter"] = int(rng.integers(2, 8))
+            # scipy methods that take bounds; the derivative-free ones may ask for the same point twice
+            L["method"] = str(rng.choice(["L-BFGS-B", "L-BFGS-B", "Nelder-Mead", "Powell"]))
         levels.append(L)
     limit = int(rng.integers(1, 5))
     sk = int(rng.integers(0, 7))
@@ -408,7 +410,7 @@ def build(spec, run, plain=None):
         elif k == "cmas":
             levels.append(C.CMALevelConfig(generations=L["generations"], problem=p, sigma0=None, set_stds=True, lsc=lsc))
         elif k == "local":
-            levels.append(C.LocalOptimizationConfig(problem=p, lsc=lsc, maxiter=L["maxiter"]))
+            levels.append(C.LocalOptimizationConfig(problem=p, lsc=lsc, method=L.get("method", "L-BFGS-B"), maxiter=L["maxiter"]))
         else:
             raise ValueError(k)
 
@@ -884,6 +886,12 @@ def monitor_batch(ctx, pid, n, salt=11, name=None, force=None, also=()):
         except Exception as e:  # the run itself crashed: report, with the spec as replay
             import traceback
 
+            from .common import is_env_crash
+
+            if is_env_crash(e):
+                sl.skipped += 1
+                sl.count("skipped:third-party-library-raised:" + type(e).__name__)
+                continue
             sl.violations.append({"signature": f"{pid}/run-crashed", "detail": f"{type(e).__name__}: {e}; {traceback.format_exc()[-600:]}", "replay": {"spec": spec}})
             continue
         sl.cases += 1
